@@ -98,6 +98,8 @@ Fixpoint denote_steps (fuel : nat) (steps : list step) (rows : list val) : list 
         | SFilterWithSide side q => filter (sp q side) rows
         | SMapWithSideMap pairs dflt => map (side_lookup pairs dflt) rows
         | STryMap f p => map (fun x => if pf p x then VSome (ef f x) else VNone) rows
+        | SDebug _ => rows
+        | SCustomMap f => map (ef f) rows
         end in
       denote_steps fuel' rest rows'
   end
@@ -113,6 +115,7 @@ Definition elementwise_step (st : step) : bool :=
   | SMapValuesW _ | SFilterValuesW _ | SMapValuesBack _ | SGroupValuesToList => true
   | SMapBatches _ (BEach _) | SMapValuesBatches _ (BEach _) | SMapBatches _ BDup => true
   | SMapWithSide _ _ | SFilterWithSide _ _ | SMapWithSideMap _ _ | STryMap _ _ => true
+  | SDebug _ | SCustomMap _ => true
   | _ => false
   end.
 Definition has_barrier (steps : list step) : bool := negb (forallb elementwise_step steps).
@@ -134,6 +137,8 @@ Definition step_type (t : tag) (st : step) : option tag :=
   | SMapWithSide _ _ | SMapWithSideMap _ _ => Some TU
   | SFilterWithSide _ _ => Some t
   | STryMap _ _ => Some TRES
+  | SDebug _ => Some t
+  | SCustomMap _ => Some TU
   | _ => None   (* barrier steps: not part of the element-wise fragment *)
   end.
 Fixpoint well_typed (t : tag) (steps : list step) : bool :=
